@@ -30,7 +30,9 @@ CLAIM = {
           "(8) C01_roundtrip_all_compressed: the compressed-timestamp option in full generality -- developer fields AND timestamps moved into record headers, single or chained "
           "files, any decoder option set with expansion off; string arrays of known fields qualify too (C06's clean non-empty elements). So every combination of encoder "
           "options of the statement (byte order, header option, local message types, protocol version, header size) is covered by C01_roundtrip / C01_roundtrip_all_compressed. "
-          "Not yet a theorem and decided per run: component expansion on (decoded messages then also carry the expanded fields, C05), strings and arrays of unknown fields beyond numeric ones, writer kinds (C09): model-encode = Go bytes, model-decode(Go bytes) = Go decode, and Go decode(Go encode x) = validated x "
+          "(9) C01_roundtrip_any_writer, C01_roundtrip_stream_writer: composed with C09 -- for every writer kind, write-buffer size and caller-preset data size, batch or stream "
+          "encoder, the destination holds the bytes of encode_fits and decoding the destination content yields the messages (normal headers). "
+          "Not yet a theorem and decided per run: component expansion on (decoded messages then also carry the expanded fields, C05), strings and arrays of unknown fields beyond numeric ones: model-encode = Go bytes, model-decode(Go bytes) = Go decode, and Go decode(Go encode x) = validated x "
           "on structured inputs over all encoder options and chained files.",
   "note": NOTE_COMMON + " gen/Factory.v and gen/Consts.v are dumped from the compiled packages. Primitive float/int63 operations appear under Print Assumptions "
           "(component scaling in the decoder model); custom factories are outside the model."}
